@@ -158,6 +158,16 @@ class Harness:
         rec.fields["__getattr__"] = lambda name: self.get_property(rec, name)
         rec.fields["__len__"] = lambda: len(tokens)
         rec.fields["__iter__"] = lambda: list(tokens)
+
+        def delitem(i):
+            try:
+                tok = tokens[i]
+                del tokens[i]
+            except (IndexError, TypeError):
+                raise PyRaise("IndexError")
+            rec.fields.setdefault("log", []).append(("del", i, getattr(tok, "op", None)))
+
+        rec.fields["__delitem__"] = delitem
         return rec
 
     @staticmethod
@@ -786,7 +796,12 @@ def run(rep: Report, tier: str):
         ops_ = [t.op for t in toks]
         first_inj = ops_.index("GLOBAL")
         blk = ["CONST" if (o == "CONST" or o in CONST_OPNAMES) else o for o in ops_[first_inj:first_inj + 5]]
-        if ops_[:first_inj] == hdr and blk == ["GLOBAL", "MARK", "CONST", "TUPLE", "REDUCE"] and ops_[first_inj + 5] == "BODY":
+        # the header that is still there (a helper may remove FRAME opcodes, whose lengths it invalidates): only PROTO / FRAME
+        # tokens, in their original order, precede the injected block
+        kept = ops_[:first_inj]
+        it_ = iter(hdr)
+        header_ok = all(o in ("PROTO", "FRAME") for o in kept) and all(o in it_ for o in kept)
+        if header_ok and blk == ["GLOBAL", "MARK", "CONST", "TUPLE", "REDUCE"] and ops_[first_inj + 5] == "BODY":
             rep.ok("C08.prefix", f"{P}.insert_python", f"header {hdr or '[]'}: injected block sits right after it, contiguous, before the body", f"{ip.file}:{ip.line}")
         else:
             rep.bad("C08.prefix", f"{P}.insert_python", f"prefix-position:{'+'.join(hdr) or 'none'}", f"with header {hdr} the rewritten list is `{' '.join(ops_)}`: the injected block is not contiguous right after the header", ip.file, ip.line)
@@ -807,3 +822,14 @@ def run(rep: Report, tier: str):
                     rep.ok("C08.once", g_.qualname, "compile() of the injected source is not affected by __future__ flags of the calling module" + (" (dont_inherit=True)" if isolated else " (the module has none)"), f"{g_.file}:{n_.lineno}")
     if n_eval < 20:
         raise AnalysisError(f"only {n_eval} template cases could be evaluated")
+
+    # value level, interpreted last: the helpers on real base pickles, the rewritten bytes read by CPython's own unpickler
+    from ..injectworlds import explore as _inject_explore
+
+    rep.rule("C08.inject-worlds", "every helper x flag combination on real base pickles: one call with the given arguments, original effects and result kept or replaced as promised, stack empty and a single STOP at the end, loadable from a file", 1)
+    found, n_worlds = _inject_explore(repo, tier)
+    pkc = repo.cls("fickling.fickle.Pickled")
+    for key, (c, msg) in sorted(found.items()):
+        rep.bad("C08.inject-worlds", pkc.qualname, key, f"{msg} [{c} world(s)]", pkc.module.relpath, pkc.node.lineno)
+    rep.ok("C08.inject-worlds", pkc.qualname, f"{n_worlds} worlds (base pickles: sample values at protocols 0-5 incl. framed ones, shared references, instances, 300 memo entries, sparse and colliding memo keys; x every injection helper and flag combination x three argument shapes) interpreted; the rewritten bytes read by pickletools and by CPython's accelerated unpickler from a file object (and the pure-Python one for unframed bases) with every global an inert logging stand-in", "", nontrivial=True)
+
